@@ -101,9 +101,15 @@ def run(model, rep, tier):
                '' if ok else 'default of %s is not the neutral np.%s(...)' % (kk, want), engine='tables')
     limb = ci.methods['makeLIMBpreene']
     limb_sizes = {}
+    lrets = [n for n in walk_local(limb) if isinstance(n, ast.Return) and isinstance(n.value, ast.Dict)]
+    if len(lrets) != 1:
+        raise AnalysisError('makeLIMBpreene: dictionary return not found')
+    # size of the array returned under each key (the local behind the key is read off the returned dictionary)
+    lkey = {v.id: k.value for k, v in zip(lrets[0].value.keys, lrets[0].value.values) if isinstance(k, ast.Constant) and isinstance(v, ast.Name)}
     for n in limb.body:
-        if isinstance(n, ast.Assign) and isinstance(n.targets[0], ast.Name) and isinstance(n.value, ast.Call) and n.value.args:
-            limb_sizes[n.targets[0].id] = unparse(n.value.args[0])
+        if isinstance(n, ast.Assign) and isinstance(n.targets[0], ast.Name) and isinstance(n.value, ast.Call) and n.value.args \
+                and n.targets[0].id in lkey:
+            limb_sizes[lkey[n.targets[0].id]] = unparse(n.value.args[0])
     for tagstring, pre, ene, node, lp in rows:
         okp = pre.startswith('pre') and ene.startswith('ene') and pre[3:] == ene[3:]
         src = tdk if lp is row_loops[0] else limb_sizes
@@ -158,21 +164,20 @@ def run(model, rep, tier):
             mem = [x for x in inner[0].body if isinstance(x, ast.For)]
             if len(mem) == 1 and unparse(mem[0].iter) == tags_:
                 t_ = unparse(mem[0].target)
-                ifs = [x for x in mem[0].body if isinstance(x, ast.If)]
-                if len(ifs) == 1 and unparse(ifs[0].test) == '%s in usertagdict' % t_:
-                    body = ifs[0].body
-                    asg = [x for x in body if isinstance(x, ast.Assign)]
-                    brk = [x for x in body if isinstance(x, ast.Break)]
-                    txt = unparse(asg[0]) if asg else ''
-                    ok = len(asg) == 1 and len(brk) == 1 and txt == 'thermodict[%s][%s], thermodict[%s][%s] = usertagdict[%s]' % (
-                        names[1], i_, names[2], i_, t_)
+                # normal form: ``if t not in usertagdict: continue`` ; <assign> ; break
+                body = mem[0].body
+                if len(body) == 3 and isinstance(body[0], ast.If) and not body[0].orelse and len(body[0].body) == 1 \
+                        and isinstance(body[0].body[0], ast.Continue) and unparse(body[0].test) == '%s not in usertagdict' % t_ \
+                        and isinstance(body[1], ast.Assign) and isinstance(body[2], ast.Break):
+                    txt = unparse(body[1])
+                    ok = txt == 'thermodict[%s][%s], thermodict[%s][%s] = usertagdict[%s]' % (names[1], i_, names[2], i_, t_)
         rep.ob('override-shape', mod, lp, 'override: %s ; break' % txt, ok,
                '' if ok else 'user data are not written to (prefactor, energy)[class index] of the class the tag belongs to',
                engine='flow')
     # ---- verbose report
     from ..engines import pattern
-    bad = pattern.find(t2p, 'for _N_u in usertagdict:\n    if _N_u not in self.tagdict:\n        _N_bad.append(_N_u)\n    else:\n        '
-                            '_N_td[self.tagdicttype[_N_u], self.tagdict[_N_u]].append(_N_u)')
+    bad = pattern.find(t2p, 'for _N_u in usertagdict:\n    if _N_u in self.tagdict:\n        '
+                            '_N_td[self.tagdicttype[_N_u], self.tagdict[_N_u]].append(_N_u)\n    else:\n        _N_bad.append(_N_u)')
     rep.ob('verbose-report', mod, t2p, 'unknown tags go to the bad-tag list, known tags are grouped by (type, class index)', bool(bad),
            '' if bad else 'the verbose report no longer separates unknown tags / groups known tags by class', engine='flow')
     init = pattern.find(t2p, '_N_td = {(_N_t, _N_n): [] for _N_t, _N_l in self.tags.items() for _N_n in range(len(_N_l))}')
@@ -218,8 +223,8 @@ def run(model, rep, tier):
     # tagdict fill shape in both generators and the loader
     for cname, fn in (('VacancyMediated', gt), ('Interstitial', ig)):
         ok = pattern.has(fn, 'for _N_tt, _N_tl in _N_tags.items():\n    for _N_i, _N_ts in enumerate(_N_tl):\n        for _N_t in _N_ts:\n'
-                             '            if _N_t in _N_td:\n                raise ValueError(_E_msg)\n            else:\n'
-                             '                _N_td[_N_t], _N_tdt[_N_t] = (_N_i, _N_tt)')
+                             '            if _N_t in _N_td:\n                raise ValueError(_E_msg)\n'
+                             '            _N_td[_N_t] = _N_i\n            _N_tdt[_N_t] = _N_tt')
         rep.ob('tag-type-tables', mod, fn, '%s.generatetags: tagdict[tag], tagdicttype[tag] = i, tagtype under the three nested loops' % cname,
                ok, '' if ok else 'tag -> (class index, type) dictionaries are not filled from the loops that enumerate the tags',
                engine='flow')
